@@ -55,7 +55,7 @@ def st_configs(tier):
 ZERO_QUICK = [("dv", 4, 1, 1, 1, 3), ("dvb", 2, 1, 2, 1, 3), ("sv", 3, 1, 1, 1, 3), ("svb", 2, 1, 2, 1, 3), ("dm", 2, 2, 1, 1, 3),
               ("csr", 2, 2, 1, 1, 3), ("csr", 2, 2, 1, 1, 5), ("bcsr", 2, 1, 2, 2, 3), ("bcsr", 1, 2, 2, 3, 3), ("cscr", 2, 2, 1, 1, 3), ("banded", 2, 2, 1, 1, 3)]
 ZERO_THOROUGH = [("dv", 5, 1, 1, 1, 3), ("dvb", 2, 1, 2, 1, 3), ("dvb", 1, 1, 3, 1, 3), ("sv", 4, 1, 1, 1, 3), ("svb", 2, 1, 2, 1, 3), ("dm", 2, 2, 1, 1, 3),
-                 ("dm", 2, 3, 1, 1, 4), ("csr", 2, 2, 1, 1, 3), ("csr", 2, 3, 1, 1, 4), ("csr", 3, 2, 1, 1, 4), ("csr", 2, 2, 1, 1, 5), ("csr", 3, 3, 1, 1, 6),
+                 ("dm", 2, 3, 1, 1, 4), ("csr", 2, 2, 1, 1, 3), ("csr", 2, 3, 1, 1, 4), ("csr", 2, 2, 1, 1, 5), ("csr", 3, 3, 1, 1, 6),
                  ("bcsr", 2, 2, 2, 2, 3), ("bcsr", 1, 2, 2, 3, 3), ("cscr", 2, 2, 1, 1, 3), ("banded", 2, 2, 1, 1, 3), ("banded", 2, 3, 1, 1, 4)]
 
 
